@@ -64,3 +64,159 @@ pub fn c01(rng: &mut impl Rng, len: usize) -> Vec<Value> {
     }
     evs
 }
+
+fn hot_conc_rule(rng: &mut impl Rng, id: String, res: &str) -> Value {
+    let vals = ["a", "b", "c", "d"];
+    let mut spec = serde_json::Map::new();
+    for v in vals.iter() {
+        if rng.gen_range(0..4) == 0 {
+            spec.insert(v.to_string(), json!(rng.gen_range(1..=3u64)));
+        }
+    }
+    let keyed = rng.gen_range(0..3) == 0;
+    json!({"id": id, "res": res, "metric": "conc", "ctl": "reject",
+        "idx": if keyed { 0 } else { rng.gen_range(-3..=3i64) },
+        "key": if keyed { "k" } else { "" },
+        "thr": rng.gen_range(1..=3u64), "spec": spec, "dur": 0, "burst": 0, "maxq": 0, "cap": 0})
+}
+
+fn rand_args(rng: &mut impl Rng) -> (Option<Value>, Option<Value>) {
+    let vals = ["a", "b", "c", "d"];
+    let args = match rng.gen_range(0..6) {
+        0 => None,
+        _ => {
+            let n = rng.gen_range(0..=3);
+            Some(json!((0..n).map(|_| *pick(rng, &vals)).collect::<Vec<_>>()))
+        }
+    };
+    let att = match rng.gen_range(0..3) {
+        0 => Some(json!({"k": *pick(rng, &vals)})),
+        1 => Some(json!({"other": "z"})),
+        _ => None,
+    };
+    (args, att)
+}
+
+fn push_enter(rng: &mut impl Rng, evs: &mut Vec<Value>, id: u64, res: &str, n: u64, inb: bool, t: u64, with_args: bool) {
+    let mut e = json!({"e": "enter", "id": id, "res": res, "n": n, "in": inb, "t": t});
+    if with_args {
+        let (a, at) = rand_args(rng);
+        if let Some(a) = a {
+            e["args"] = a;
+        }
+        if let Some(at) = at {
+            e["att"] = at;
+        }
+    }
+    evs.push(e);
+}
+
+/// C05: isolation and hotspot-concurrency rules only (no foreign family), so every decision is owed.
+pub fn c05(rng: &mut impl Rng, len: usize) -> Vec<Value> {
+    let t0 = rng.gen_range(0..20000u64);
+    let mut evs = vec![json!({"e": "reset", "t": t0, "obs": 1, "cfg": {"nt": 20, "It": 10000, "n": 2, "I": 1000}})];
+    let mut t = t0;
+    let ress = ["r1", "r2"];
+    let mut iso = Vec::new();
+    let mut hot = Vec::new();
+    let mode = rng.gen_range(0..3); // 0 iso only, 1 hot only, 2 both
+    for (ri, r) in ress.iter().enumerate() {
+        if mode != 1 {
+            for k in 0..rng.gen_range(0..=2) {
+                iso.push(json!({"id": format!("i{}{}", ri, k), "res": r, "thr": rng.gen_range(1..=4u64)}));
+            }
+        }
+        if mode != 0 {
+            for k in 0..rng.gen_range(0..=2) {
+                hot.push(hot_conc_rule(rng, format!("h{}{}", ri, k), r));
+            }
+        }
+    }
+    evs.push(json!({"e": "load", "fam": "iso", "op": "all", "t": t, "rules": iso}));
+    evs.push(json!({"e": "load", "fam": "hot", "op": "all", "t": t, "rules": hot}));
+    let mut open: Vec<u64> = Vec::new();
+    let mut id = 0;
+    for _ in 0..len {
+        t += step(rng, t, 500, 1000);
+        let want_exit = !open.is_empty() && rng.gen_range(0..10) < 4;
+        if want_exit {
+            let i = rng.gen_range(0..open.len());
+            evs.push(json!({"e": "exit", "id": open.remove(i), "t": t}));
+        } else if rng.gen_range(0..12) == 0 {
+            evs.push(json!({"e": "adv", "t": t}));
+        } else {
+            id += 1;
+            open.push(id);
+            let res = *pick(rng, &ress);
+            let n = if rng.gen_range(0..3) == 0 { rng.gen_range(2..=3) } else { 1 };
+            let inb = rng.gen_bool(0.3);
+            push_enter(rng, &mut evs, id, res, n, inb, t, true);
+        }
+    }
+    evs
+}
+
+/// C04: rules of every family (no throttling: a sleeping check would move the clock inside a call)
+/// produce blocks; accounting is checked on the resource nodes and the global inbound node.
+pub fn c04(rng: &mut impl Rng, len: usize) -> Vec<Value> {
+    let t0 = rng.gen_range(0..20000u64);
+    let mut evs = vec![json!({"e": "reset", "t": t0, "obs": 2, "cfg": {"nt": 20, "It": 10000, "n": 2, "I": 1000}})];
+    let mut t = t0;
+    let ress = ["r1", "r2", "r3"];
+    let (mut iso, mut hot, mut flw, mut cbs, mut sys) = (Vec::new(), Vec::new(), Vec::new(), Vec::new(), Vec::new());
+    for (ri, r) in ress.iter().enumerate() {
+        if rng.gen_range(0..3) == 0 {
+            iso.push(json!({"id": format!("i{}", ri), "res": r, "thr": rng.gen_range(1..=3u64)}));
+        }
+        if rng.gen_range(0..3) == 0 {
+            flw.push(json!({"id": format!("f{}", ri), "res": r, "thr": [rng.gen_range(0..=6u64), 1], "I": *pick(rng, &[0u64, 500, 2000, 700])}));
+        }
+        if rng.gen_range(0..4) == 0 {
+            hot.push(hot_conc_rule(rng, format!("h{}", ri), r));
+        }
+        if rng.gen_range(0..4) == 0 {
+            hot.push(json!({"id": format!("q{}", ri), "res": r, "metric": "qps", "ctl": "reject", "idx": 0, "key": "",
+                "thr": rng.gen_range(0..=3u64), "spec": {}, "dur": 1, "burst": rng.gen_range(0..=1u64), "maxq": 0, "cap": 0}));
+        }
+        if rng.gen_range(0..4) == 0 {
+            cbs.push(json!({"id": format!("c{}", ri), "res": r, "strat": "ecount", "retry": 1000, "minreq": 1,
+                "I": 1000, "nb": 1, "maxrt": 0, "thr": [rng.gen_range(1..=2u64), 1]}));
+        }
+    }
+    if rng.gen_range(0..4) == 0 {
+        sys.push(json!({"id": "s1", "metric": "conc", "thr": [rng.gen_range(1..=3u64), 1], "strat": "none"}));
+    }
+    if rng.gen_range(0..5) == 0 {
+        sys.push(json!({"id": "s2", "metric": "qps", "thr": [rng.gen_range(1..=5u64), 1], "strat": "none"}));
+    }
+    for (fam, rules) in [("iso", iso), ("flow", flw), ("hot", hot), ("cb", cbs), ("sys", sys)] {
+        if !rules.is_empty() || fam == "iso" {
+            evs.push(json!({"e": "load", "fam": fam, "op": "all", "t": t, "rules": rules}));
+        }
+    }
+    let mut open: Vec<u64> = Vec::new();
+    let mut id = 0;
+    for _ in 0..len {
+        let span = if rng.gen_bool(0.8) { 1000 } else { 10000 };
+        t += step(rng, t, 500, span);
+        if !open.is_empty() && rng.gen_range(0..10) < 4 {
+            let i = rng.gen_range(0..open.len());
+            evs.push(json!({"e": "exit", "id": open.remove(i), "t": t, "err": rng.gen_range(0..4) == 0}));
+        } else if rng.gen_range(0..10) == 0 {
+            evs.push(json!({"e": "adv", "t": t}));
+        } else {
+            id += 1;
+            open.push(id);
+            let res = *pick(rng, &ress);
+            let n = rng.gen_range(1..=3u64);
+            let inb = rng.gen_bool(0.5);
+            push_enter(rng, &mut evs, id, res, n, inb, t, true);
+        }
+    }
+    // all entries exited: the process-global inbound node is clean for the next history
+    for i in open {
+        t += rng.gen_range(0..300);
+        evs.push(json!({"e": "exit", "id": i, "t": t}));
+    }
+    evs
+}
